@@ -226,13 +226,22 @@ func source(c c12Case, decl string) string {
 		}
 		fmt.Fprintf(&b, "  > %s(%s)\n", c.Spelling, all)
 	case "nested":
-		fmt.Fprintf(&b, "  > p.t1.%s(%s)\n", c.Spelling, args)
+		if c.Provider == "mongo" {
+			// a collection is reached through collection(name), and calls do not chain
+			fmt.Fprintf(&b, "  $ coll = p.collection(\"t1\")\n  > coll.%s(%s)\n", c.Spelling, args)
+		} else {
+			fmt.Fprintf(&b, "  > p.t1.%s(%s)\n", c.Spelling, args)
+		}
 	case "field":
 		fmt.Fprintf(&b, "  > p.%s\n", c.Spelling)
 	case "viamap":
 		fmt.Fprintf(&b, "  $ o = {h: p}\n  > o.h.%s(%s)\n", c.Spelling, args)
 	case "subvar":
-		fmt.Fprintf(&b, "  $ t = p.t1\n  > t.%s(%s)\n", c.Spelling, args)
+		if c.Provider == "mongo" {
+			fmt.Fprintf(&b, "  $ t = p.Collection(\"t1\")\n  > t.%s(%s)\n", c.Spelling, args)
+		} else {
+			fmt.Fprintf(&b, "  $ t = p.t1\n  > t.%s(%s)\n", c.Spelling, args)
+		}
 	}
 	b.WriteString("}\n")
 	return b.String()
